@@ -194,6 +194,7 @@ Inductive op :=
 | ODeposit (to denom : string) (amt : Z)
 | OQuery (q : query)
 | OBlockedOutside
+| OCallback             (* another IBC callback (acknowledgement, timeout): the embedded module's, differential only *)
 | OAppPanics.           (* the wrapped ICS-20 application itself panicked on a packet that is not the orbiter's *)      (* a packet the middleware in front of the orbiter (blockibc) refused itself *)
 
 Inductive out :=
@@ -220,6 +221,7 @@ Definition step (cfg : config) (e : env) (w : world) (o : op) : world * out :=
   | OQuery q => (w, OutQuery (run_query (w_o w) q))
   | OBlockedOutside => (w, OutBlocked)
   | OAppPanics => (w, OutAppPanic)
+  | OCallback => (w, OutDeposit)
   end.
 
 Fixpoint run_ops (cfg : config) (e : env) (w : world) (ops : list op) : world * list out :=
